@@ -496,6 +496,8 @@ ORACLES = [
            from_ops=("bind.roundtrip", "bind.generate"), adapt=adapt_oracle, adapt_disagreement=adapt_disagreement),
     Oracle("roundtrip-wide", gen_wide, oracle_roundtrip, covered=covered_wide),
     Oracle("shared-context", gen_shared, oracle_shared),
+    # the shapes of the repaired defects (corpus/C01/roundtrip-repaired-*.json) must round-trip: no excuse
+    Oracle("roundtrip-repaired", lambda rng, tier: corpus_roundtrip("roundtrip-repaired-*.json"), oracle_roundtrip),
 ]
 
 
